@@ -31,6 +31,35 @@ def make_bpseq(triples):
     return c.BpSeq([c.Entry(int(i), str(ch), int(j)) for i, ch, j in triples])
 
 
+_CORPUS = {}
+CORPUS_DIR = None
+
+
+def corpus_dir():
+    import os
+
+    src = os.environ.get("VERIF_REPO_SRC", "/repo/src").rstrip("/")
+    return os.path.join(os.path.dirname(src), "tests")
+
+
+def corpus_mapping(name):
+    """A fresh Mapping2D3D over a corpus file (parsing and 3D annotation cached per process; the mapping
+    object itself, which memoises the notation, is new every time)."""
+    import os
+
+    from rnapolis import annotator, parser
+    from rnapolis.tertiary import Mapping2D3D
+    from rnapolis.util import handle_input_file
+
+    if name not in _CORPUS:
+        with handle_input_file(os.path.join(corpus_dir(), name)) as fh:
+            s3d = parser.read_3d_structure(fh, None)
+        bi = annotator.extract_base_interactions(s3d)
+        _CORPUS[name] = (s3d, bi.basePairs, bi.stackings)
+    s3d, bps, sts = _CORPUS[name]
+    return Mapping2D3D(s3d, bps, sts, False)
+
+
 def db_tuple(db):
     return [getattr(db, "sequence", None), getattr(db, "structure", None)]
 
@@ -63,11 +92,37 @@ def execute_step(env, step):
             env.set_default(solver)
     else:
         env.set_default(None if step.get("default", "none") == "none" else SimSolver(env))
-    bp = make_bpseq(step["triples"])
     obs = {"raised": None, "db": None, "consumer": None, "discard": None}
+    if op.startswith("mapping_"):
+        mapping = corpus_mapping(step["corpus"])
+        bp = mapping.bpseq
+        obs["triples"] = [[e.index_, e.sequence, e.pair] for e in bp.entries]
+    else:
+        bp = make_bpseq(step["triples"])
     events.log("op.invoke", [op, via, backend, fault.get("kind")])
     try:
-        if via == "argument":
+        if op == "mapping_dot_bracket":
+            text = mapping.dot_bracket
+            lines = text.split("\n")
+            obs["db"] = ["".join(lines[1::3]), "".join(lines[2::3])]
+            obs["consumer"] = {"mapping_text_lines": len(lines)}
+        elif op == "mapping_extended":
+            text = mapping.extended_dot_bracket
+            nstrands = len(mapping.strands_sequences)
+            per_strand = text.split("\n")
+            # every strand block: header, 'seq ...', then one line per (LW class, row)
+            block = len(per_strand) // max(1, nstrands)
+            rows = {}
+            seq = ""
+            for b in range(nstrands):
+                chunk = per_strand[b * block:(b + 1) * block]
+                seq += chunk[1].split(" ", 1)[1]
+                for k, line in enumerate(chunk[2:]):
+                    lw, dbn = line.split(" ", 1)
+                    rows[k] = (lw, rows.get(k, (lw, ""))[1] + dbn)
+            obs["db"] = db_tuple(bp.dot_bracket)
+            obs["consumer"] = {"extended_rows": [[lw, dbn] for _, (lw, dbn) in sorted(rows.items())], "extended_seq": seq}
+        elif via == "argument":
             db = bp.convert_to_dot_bracket(solver)
             obs["db"] = db_tuple(db)
         elif op == "dot_bracket":
@@ -135,8 +190,9 @@ def _violation(k, clause, expected, actual):
 
 def judge_common(k, step, obs, out):
     """Clauses shared by C02 and C13: no exception, lossless.  Returns (n, pairs, seq, ok)."""
-    n, pairs = oracles.pairs_of_triples(step["triples"])
-    seq = oracles.sequence_of_triples(step["triples"])
+    triples = obs.get("triples") or step["triples"]
+    n, pairs = oracles.pairs_of_triples(triples)
+    seq = oracles.sequence_of_triples(triples)
     if obs["raised"] is not None:
         out.append(_violation(k, "never-raises", "a DotBracket", obs["raised"]))
         return n, pairs, seq, False
@@ -150,7 +206,7 @@ def judge_common(k, step, obs, out):
 def judge_c13(run, observations):
     out = []
     for k, (step, obs) in enumerate(zip(run["steps"], observations)):
-        if obs.get("discard"):
+        if obs.get("discard") or step.get("probe"):
             continue
         n, pairs, seq, ok = judge_common(k, step, obs, out)
         if not ok:
@@ -168,6 +224,15 @@ def judge_c13(run, observations):
                 if sstr != structure[lo - 1 : hi] or sseq != seq[lo - 1 : hi]:
                     out.append(_violation(k, "elements-consistent-with-notation",
                                           [lo, hi, seq[lo - 1 : hi], structure[lo - 1 : hi]], [first, last, sseq, sstr]))
+                    break
+        if cons and "extended_rows" in cons:
+            for lw, row in cons["extended_rows"]:
+                got = oracles.decode(row) if len(row) == n else None
+                if got is None:
+                    out.append(_violation(k, "extended-row-is-a-balanced-notation", "balanced, length %d" % n, [lw, row]))
+                    break
+                if not delivered and row != oracles.fcfs_ref(n, got):
+                    out.append(_violation(k, "extended-row-fcfs-when-not-delivered", oracles.fcfs_ref(n, got), [lw, row]))
                     break
         if cons and "child" in cons:
             cn, cpairs = oracles.pairs_of_triples(cons["child"])
